@@ -22,6 +22,7 @@ import (
 	"strconv"
 	"strings"
 	"sync"
+	"sync/atomic"
 	"time"
 
 	"verif/internal/rewrite"
@@ -71,6 +72,17 @@ func proxySpecs() []rewrite.PkgSpec {
 	}
 }
 
+func tsSpecs() []rewrite.PkgSpec {
+	ts := map[string]string{"os": "verif/sim/os", "os/exec": "verif/sim/exec", "sync": "verif/sim/sync", "sync/atomic": "verif/sim/atomic"}
+	return []rewrite.PkgSpec{
+		{Dir: repo("testscript"), Subst: ts, GoStmts: true},
+		{Dir: repo("testscript/internal/pty"), Subst: ts},
+		{Dir: repo("internal/os/execpath"), Subst: map[string]string{"os": "verif/sim/os"}},
+		{Dir: repo("txtar"), Subst: map[string]string{"os": "verif/sim/os"}},
+		{Dir: repo("par"), Subst: substSync, GoStmts: true},
+	}
+}
+
 func lfSpecs() []rewrite.PkgSpec {
 	return []rewrite.PkgSpec{
 		{Dir: repo("lockedfile"), Subst: substLF, GoStmts: true},
@@ -96,6 +108,12 @@ var props = map[string]propCfg{
 	"C20": {
 		Harness:  "./harness/c20",
 		Specs:    proxySpecs(),
+		Quick:    tierCfg{16, 20},
+		Thorough: tierCfg{16, 600},
+	},
+	"C17": {
+		Harness:  "./harness/c17",
+		Specs:    tsSpecs(),
 		Quick:    tierCfg{16, 20},
 		Thorough: tierCfg{16, 600},
 	},
@@ -173,6 +191,7 @@ func realMain() int {
 	budget := fs.Float64("budget-s", 0, "override per-worker search budget in seconds")
 	maxRuns := fs.Int64("max-runs", 0, "stop each worker after this many plans (determinism self-tests)")
 	resultDir := fs.String("keep-results", "", "copy raw worker results here")
+	buildOnly := fs.String("build-only", "", "development aid: build the harness binary to this path and stop")
 	selftest := fs.Int64("selftest", 0, "determinism self-test: run this many plans per worker twice at GOMAXPROCS 1, 4 and 16 and compare per-plan trace hashes")
 	fs.Parse(os.Args[2:])
 	if *tier == "" {
@@ -232,6 +251,12 @@ func realMain() int {
 		return 2
 	}
 	buildS := time.Since(start).Seconds()
+	if *buildOnly != "" {
+		data, _ := os.ReadFile(bin)
+		os.WriteFile(*buildOnly, data, 0o755)
+		fmt.Println("built", *buildOnly)
+		return 0
+	}
 
 	tc := cfg.Quick
 	if *tier == "thorough" {
@@ -249,9 +274,10 @@ func realMain() int {
 	replayDir := filepath.Join(verifRoot, "replays", id)
 
 	cpuFlag := 1
+	var wdSeq atomic.Int64
 	runWorker := func(w int, extraEnv ...string) (*simcheck.Result, string) {
 		out := filepath.Join(scratch, fmt.Sprintf("result-%d-%d.json", w, time.Now().UnixNano()))
-		wd := filepath.Join(scratch, fmt.Sprintf("work-%d", w))
+		wd := filepath.Join(scratch, fmt.Sprintf("work-%d-%d", w, wdSeq.Add(1)))
 		os.MkdirAll(wd, 0o755)
 		timeout := time.Duration(tc.BudgetS*float64(time.Second)) + 150*time.Second
 		args := fmt.Sprintf("ulimit -v 25165824; exec %q -test.run '^TestSim$' -test.cpu %d -test.count 1 -test.timeout %ds", bin, cpuOf(extraEnv, cpuFlag), int(timeout.Seconds()))
